@@ -133,23 +133,36 @@ def judge(sh: Shard, mw, label, suspend, regime, exited):
     # ---- I4: brackets
     for a, b, name in (("LOCATING_STARTED", "LOCATING_FINISHED", "LOCATING"), ("CONNECTION_STARTED", "CONNECTION_FINISHED", "CONNECTION")):
         open_ = 0
+        after_exit = False
         for i, e in enumerate(ev):
             if e["event"] == "SPA_MAN_EXIT":
-                break  # cancellation at context exit: brackets are only counted
+                # the context is being left: the pump is cancelled.  A phase cancelled before its
+                # STARTED could be delivered may still deliver FINISHED (tolerated); a phase that did
+                # start must still be closed by the cancellation unwinding through it
+                after_exit = True
+                if open_:
+                    sh.count("brackets_open_at_exit")
+                continue
             if e["event"] == a:
                 open_ += 1
-                if open_ > 1:
+                if open_ > 1 and not after_exit:
                     sh.violation(f"C08:I4:bracket:{name}", f"{a} delivered while the previous phase was not closed", dict(wbase, trail=tail(i)))
                     open_ = 1
             elif e["event"] == b:
                 open_ -= 1
                 if open_ < 0:
-                    sh.violation(f"C08:I4:bracket:{name}", f"{b} without a started phase", dict(wbase, trail=tail(i)))
+                    if not after_exit:
+                        sh.violation(f"C08:I4:bracket:{name}", f"{b} without a started phase", dict(wbase, trail=tail(i)))
                     open_ = 0
-        if open_ and not exited:
-            sh.violation(f"C08:I4:bracket:{name}", f"{a} never closed by {b}", dict(wbase, trail=tail(len(ev) - 1)))
-        if open_ and exited:
-            sh.count("brackets_open_at_exit")
+        if open_ and after_exit and name == "CONNECTION":
+            # the closing event is delivered after its nested facade-ready announcement: a cancellation
+            # that lands inside that (suspended) announcement cuts the delivery of the closing event itself
+            last_start = max(i for i, e in enumerate(ev) if e["event"] == a)
+            if any(e["event"] == "CLIENT_FACADE_IS_READY" for e in ev[last_start:]):
+                sh.count("closing_event_cut_by_exit_inside_its_nested_announcement")
+                open_ = 0
+        if open_:
+            sh.violation(f"C08:I4:bracket:{name}", f"{a} never closed by {b}" + (" (the context was left while the phase was running: the cancellation did not close it)" if after_exit else ""), dict(wbase, trail=tail(len(ev) - 1)))
     for rec in api:
         if rec["api"] in ("async_locate_spas", "async_connect_to_spa") and rec["exc"] not in (None, "CancelledError"):
             sh.count("phases_that_raised")
